@@ -918,15 +918,27 @@ fn parse_zone(
     })
 }
 
-fn remove_part(length: usize, string: &mut String) -> Result<(), AstrolabeError> {
-    if string.chars().count() < length {
-        Err(create_invalid_format(
-            "String to parse is too short. Please check your format string.".to_string(),
-        ))
-    } else {
-        string.replace_range(0..length, "");
-        Ok(())
+/// Splits a string after the given number of chars. Returns `None` if the string is too short
+fn split_chars(string: &str, length: usize) -> Option<(&str, &str)> {
+    let mut chars = string.chars();
+    for _ in 0..length {
+        chars.next()?;
     }
+    let rest = chars.as_str();
+    Some((string.strip_suffix(rest)?, rest))
+}
+
+pub(crate) fn remove_part(length: usize, string: &mut String) -> Result<(), AstrolabeError> {
+    let rest = match split_chars(string, length) {
+        Some((_, rest)) => rest.to_string(),
+        None => {
+            return Err(create_invalid_format(
+                "String to parse is too short. Please check your format string.".to_string(),
+            ))
+        }
+    };
+    *string = rest;
+    Ok(())
 }
 
 fn pick_part<T: std::str::FromStr>(
@@ -934,19 +946,20 @@ fn pick_part<T: std::str::FromStr>(
     string: &mut String,
     part_name: &str,
 ) -> Result<T, AstrolabeError> {
-    if string.chars().count() < length {
-        Err(create_invalid_format(
-            "String to parse is too short. Please check your format string.".to_string(),
-        ))
-    } else {
-        let part = string[0..length].parse::<T>().map_err(|_| {
-            create_invalid_format(format!(
-                "Failed parsing {} from given string. Value is '{}'.",
-                part_name,
-                &string[0..length]
+    let (part, rest) = match split_chars(string, length) {
+        Some((part, rest)) => (part, rest.to_string()),
+        None => {
+            return Err(create_invalid_format(
+                "String to parse is too short. Please check your format string.".to_string(),
             ))
-        })?;
-        string.replace_range(0..length, "");
-        Ok(part)
-    }
+        }
+    };
+    let parsed = part.parse::<T>().map_err(|_| {
+        create_invalid_format(format!(
+            "Failed parsing {} from given string. Value is '{}'.",
+            part_name, part
+        ))
+    })?;
+    *string = rest;
+    Ok(parsed)
 }
